@@ -182,9 +182,14 @@ impl Prop for C01 {
         let s2 = (gen::node_strategy(&cfg2), gen::flags_strategy("ims"), gen::raw_inputs(12, 6))
             .prop_map(|(node, flags, inputs)| AstCase { node, flags, inputs: Inputs::Raw(inputs) })
             .boxed();
+        // the shapes that trigger the compile-time shortcuts (C08's generator), judged here against the language
+        let s3 = (super::c08::trigger_strategy(), gen::flags_strategy("ims"), gen::raw_inputs(10, 8))
+            .prop_map(|(node, flags, inputs)| AstCase { node, flags, inputs: Inputs::Raw(inputs) })
+            .boxed();
         vec![
             Part { name: "random-abc".into(), strategy: s, cases: tier.pick(300_000, 6_000_000) },
             Part { name: "random-anchors-backrefs".into(), strategy: s2, cases: tier.pick(200_000, 4_000_000) },
+            Part { name: "shortcut-shapes".into(), strategy: s3, cases: tier.pick(150_000, 3_000_000) },
         ]
     }
     fn enumerations(&self, tier: Tier) -> Vec<(String, String, Box<dyn Iterator<Item = AstCase> + Send>)> {
